@@ -40,7 +40,7 @@ type Time time.Time
 func NewTimeFromTimeSinceGPSEpoch(sinceEpoch time.Duration) Time {
 	t := gpsEpochTime.Add(sinceEpoch)
 	for _, ls := range leapSecondsTable {
-		if ls.Time.Before(t) {
+		if !t.Before(ls.Time.Add(time.Second)) {
 			t = t.Add(-ls.Duration)
 		}
 	}
@@ -53,7 +53,7 @@ func NewTimeFromTimeSinceGPSEpoch(sinceEpoch time.Duration) Time {
 func (t Time) TimeSinceGPSEpoch() time.Duration {
 	var offset time.Duration
 	for _, ls := range leapSecondsTable {
-		if ls.Time.Before(time.Time(t)) {
+		if !time.Time(t).Before(ls.Time.Add(time.Second)) {
 			offset += ls.Duration
 		}
 	}
